@@ -55,7 +55,7 @@ let () =
         let ((insts, ab), rest) = P21Scan.scan_section (bytes_of_string data) in
         let nstr v = string_of_z (match v with BinNums.N0 -> BinNums.Z0 | BinNums.Npos p -> BinNums.Zpos p) in
         Stdlib.List.iter (fun ((id, kw), refs) ->
-            Printf.printf "I %s %s %s\n" (nstr id) (let k = string_of_bytes kw in if k = "" then "-" else k)
+            Printf.printf "I %s %s %s\n" (nstr id) (let k = string_of_bytes kw in if k = "" then "(complex)" else k)
               (String.concat " " (Stdlib.List.map nstr refs))) insts;
         Printf.printf "END abort=%d endsec=%d stop=%d\n" (if ab then 1 else 0) (if P21Scan.at_endsec rest then 1 else 0) (Stdlib.List.length rest)
       | _ -> ()
